@@ -13,9 +13,12 @@ from checks import staticpool_common as sp
 
 def check(run):
     only = os.environ.get("VERIF_STAGE")      # developer aid (e.g. VERIF_STAGE=dynamic), never used by registered commands
-    for stage in STAGES:
-        if not only or stage.__name__ == "stage_" + only:
-            stage(run)
+    todo = [st for st in STAGES if not only or st.__name__ == "stage_" + only]
+    run.build_drv()                            # one harness build, then the stages side by side
+    import concurrent.futures as cf
+    with cf.ThreadPoolExecutor(max_workers=len(todo)) as ex:
+        for f in [ex.submit(st, run) for st in todo]:
+            f.result()
 
 
 def replay(run, path):
